@@ -624,6 +624,27 @@ theorem side_condition_needed :
   ⟨1 / 1000, 400000, 1 / 1000000, 1, 1, by norm_num, by norm_num, by norm_num, by norm_num,
     by norm_num, by norm_num⟩
 
+/-- **shelf coefficients are non-negative**: what `_buildShelfHeatFlow` hands to the step
+(`s0 + n_i·s_sigma_rel·s0` clamped at 0, or `s0`, or 0 in a pallet) is `≥ 0` for every draw of the
+normals when `s0 ≥ 0` — the premise `CoeffNonneg.shelf` of the convexity argument. -/
+theorem shelf_coeff_nonneg (nz n : Nat) (s0 : ℝ) (sRel : Option ℝ) (normals : List ℝ) (hs0 : 0 ≤ s0) :
+    ∀ x ∈ shelfCoeffs nz n s0 sRel normals, 0 ≤ x := by
+  intro x hx
+  unfold shelfCoeffs at hx
+  split at hx
+  · cases sRel with
+    | none => simp only [List.mem_replicate] at hx; rw [hx.2]; exact hs0
+    | some r =>
+      simp only at hx
+      split at hx
+      · simp only [List.mem_map, List.mem_range, zero_real] at hx
+        obtain ⟨i, _, rfl⟩ := hx
+        split
+        · exact le_refl _
+        · rename_i h; exact not_lt.mp h
+      · simp only [List.mem_replicate] at hx; rw [hx.2]; exact hs0
+  · simp only [List.mem_replicate, zero_real] at hx; rw [hx.2]
+
 /-! ### non-vacuity -/
 
 /-- the default solution, one vial on a shelf with `K = 20 W/m²K`, `Δt = 2 s`, shelf from 20 °C
